@@ -282,13 +282,24 @@ def bounded_histories(seed, n_obj, n_hist):
                             except Exception as e:
                                 fail(klass, "%s: membership raised %r" % (name, e), case)
                                 break
-                        probe_line = g.Line(g.Point(*[O.to_number(c, "float") for c in probes(fresh_exact)[0]]), g.Vector(1, 2, 2))
-                        try:
-                            r1, r2 = g.intersection(o, probe_line), g.intersection(fresh, probe_line)
-                            if not (O.matches(r1, None, 1e-7)[0] if r2 is None else (r1 is not None and O.from_lib(r1)[0] == O.from_lib(r2)[0])):
-                                fail(klass, "%s: intersection with a probe line differs from the fresh object" % name, case)
-                        except Exception as e:
-                            fail(klass, "%s: intersection raised %r" % (name, e), case)
+                        from g3dvc import bounded as B_
+                        pr = probes(fresh_exact)
+                        num = lambda t: [O.to_number(c, "float") for c in t]
+                        # probe lines: oblique through a feature point, and through two feature points (inside the plane of a polygon / along an
+                        # edge or diagonal of a body: the coplanar / collinear branches read the cached edges)
+                        plines = [g.Line(g.Point(*num(pr[0])), g.Vector(1, 2, 2))]
+                        for qa, qb in ((pr[0], pr[-2]), (pr[1 % len(pr)], pr[-1]), (pr[0], pr[1 % len(pr)])):
+                            if any(x != y for x, y in zip(qa, qb)):
+                                plines.append(g.Line(g.Point(*num(qa)), g.Point(*num(qb))))
+                        for pi, probe_line in enumerate(plines):
+                            try:
+                                r1, r2 = g.intersection(o, probe_line), g.intersection(fresh, probe_line)
+                                if not B_.same_lib_result(r1, r2):
+                                    fail(klass, "%s: intersection with probe line %d is %r, on the fresh object %r" % (name, pi, r1, r2), case)
+                                    break
+                            except Exception as e:
+                                fail(klass, "%s: intersection raised %r" % (name, e), case)
+                                break
                     for m in ("length", "area", "volume"):
                         if hasattr(o, m) and kind in ("Segment", "Polygon", "Polyhedron"):
                             try:
